@@ -98,14 +98,8 @@ theorem cnt_mapAttrs_snoc (x n : Node) (a : Nat) : cnt a (n.mapAttrs (· ++ [x])
   simp only [cntL_append, cntL_cons, cntL_nil] at this
   omega
 
-/-- detach a node (if it is there) and keep it as a detached tree -/
-def detachKeep (s : St) (i : Nat) : St :=
-  match s.detach i with
-  | (s', some x) => { s' with detached := s'.detached ++ [x] }
-  | (s', none) => s'
-
-theorem detachKeep_sameIds (s : St) (i : Nat) (hi : Inv s) : SameIds s (detachKeep s i) := by
-  unfold detachKeep
+theorem detachKeep_sameIds (s : St) (i : Nat) (hi : Inv s) : SameIds s (s.detachKeep i) := by
+  unfold St.detachKeep
   cases hd : s.detach i with
   | mk s' x =>
     cases x with
@@ -113,6 +107,14 @@ theorem detachKeep_sameIds (s : St) (i : Nat) (hi : Inv s) : SameIds s (detachKe
     | none =>
       obtain ⟨_, _, _, hnone⟩ := detach_count s s' i none hi.1 hd
       simp only [hnone rfl]; exact SameIds.refl s
+
+theorem detachAll_sameIds (l : List Nat) : ∀ (s : St), Inv s → SameIds s (s.detachAll l) := by
+  induction l with
+  | nil => intro s _; exact SameIds.refl s
+  | cons i r ih =>
+    intro s hi
+    have h1 := detachKeep_sameIds s i hi
+    exact h1.trans (ih _ (hi.of_sameIds h1))
 
 theorem setAttr_core (s s1 : St) (hs : SameIds s s1) (hi : Inv s) (e : Nat) (k : Kind) (ps : List Piece) :
     Grow s { (s1.update e (Node.mapAttrs (· ++ [Node.mk s.next k [] [] (mkItems (s.next + 1) ps).1]))) with
@@ -226,15 +228,15 @@ theorem dataOp_sameIds (s : St) (n : Nat) (f : Str → Option Str) (hi : Inv s) 
     | exact SameIds.refl s
     | exact update_sameIds s n _ hi.1 (fun m a => cnt_withData _ m a)
 
-theorem sAN_core (s : St) (hi : Inv s) (pr : St × Option Nat) (hs : SameIds s pr.1) (a e : Nat) :
-    Grow s (match pr.1.detach a with
-      | (s2, some x) => (s2.update e (Node.mapAttrs (· ++ [x])), (match pr.2 with | some o => Res.node o | none => Res.none_))
+theorem sAN_core (s s1 : St) (hi : Inv s) (hs : SameIds s s1) (oldId : Option Nat) (a e : Nat) :
+    Grow s (match s1.detach a with
+      | (s2, some x) => (s2.update e (Node.mapAttrs (· ++ [x])), (match oldId with | some o => Res.node o | none => Res.none_))
       | (_, none) => (s, Res.err Exc.notFound)).1 := by
-  cases hd2 : pr.fst.detach a with
+  cases hd2 : s1.detach a with
   | mk s2 x =>
     cases x with
     | none => exact Grow.refl s
-    | some n => exact (hs.noNew.trans (attach_core pr.fst s2 (hi.of_sameIds hs) a e n hd2)).grow
+    | some n => exact (hs.noNew.trans (attach_core s1 s2 (hi.of_sameIds hs) a e n hd2)).grow
 
 theorem step_grow (s : St) (op : Op) (hi : Inv s) : Grow s (step s op).1 := by
   cases op with
@@ -262,16 +264,15 @@ theorem step_grow (s : St) (op : Op) (hi : Inv s) : Grow s (step s op).1 := by
                    all_goals exact Grow.refl s
   | removeAttribute e name =>
     simp only [step]
-    repeat' split
-    all_goals first
-      | exact Grow.refl s
-      | (rename_i hd; exact (detach_keep_sameIds s _ _ _ hi hd).grow)
+    split
+    · exact (detachAll_sameIds _ s hi).grow
+    · exact Grow.refl s
   | removeAttributeNode e a =>
     simp only [step]
     repeat' split
     all_goals first
       | exact Grow.refl s
-      | (rename_i hd; exact (detach_keep_sameIds s _ _ _ hi hd).grow)
+      | exact (detachAll_sameIds _ s hi).grow
   | setAttribute e name value =>
     simp only [step]
     split
@@ -282,13 +283,7 @@ theorem step_grow (s : St) (op : Op) (hi : Inv s) : Grow s (step s op).1 := by
         · split
           · exact Grow.refl s
           · next ps hps =>
-            have hs : SameIds s (match findAttr en name with
-                  | some o => detachKeep s o.id
-                  | none => s) := by
-              cases findAttr en name with
-              | some o => exact detachKeep_sameIds s o.id hi
-              | none => exact SameIds.refl s
-            exact setAttr_core s _ hs hi e _ ps
+            exact setAttr_core s _ (detachAll_sameIds (sameLocalIds en name) s hi) hi e _ ps
       · exact Grow.refl s
     · exact Grow.refl s
   | setAttributeNode e a =>
@@ -301,24 +296,7 @@ theorem step_grow (s : St) (op : Op) (hi : Inv s) : Grow s (step s op).1 := by
         · exact Grow.refl s
         · split
           · exact Grow.refl s
-          · have hs : SameIds s (match findAttr en nm with
-                | some o =>
-                  (match s.detach o.id with
-                  | (s', some x) => (({ s' with detached := s'.detached ++ [x] } : St), some o.id)
-                  | (s', none) => (s', none))
-                | none => (s, (none : Option Nat))).fst := by
-              cases findAttr en nm with
-              | none => exact SameIds.refl s
-              | some o =>
-                simp only
-                cases hd : s.detach o.id with
-                | mk s' x =>
-                  cases x with
-                  | some n => exact detach_keep_sameIds s s' o.id n hi hd
-                  | none =>
-                    obtain ⟨_, _, _, hnone⟩ := detach_count s s' o.id none hi.1 hd
-                    simp only [hnone rfl]; exact SameIds.refl s
-            exact sAN_core s hi _ hs a e
+          · exact sAN_core s _ hi (detachAll_sameIds (sameLocalIds en nm) s hi) _ a e
       · exact Grow.refl s
     · exact Grow.refl s
   | setValue n v =>
